@@ -27,7 +27,8 @@ CLAIMED = {
     'C05': ('other', 'Names and values MPS layers hand to cost functions, exact bit-cost under one-hot sampling (per-layer search), MPS._get_single_cost aggregation; '
             'per-channel cost with 0-bit is a recorded known finding.', '3 C05'),
     'C06': ('other', 'SuperNet cost == coefficient-weighted mix of branch costs per invocation (+ fixed layers), between min and max for every probability vector and '
-            'for the real sampler on any raw coefficients, == selected branch under one-hot. Export clause not decided (fx).', '3 C06'),
+            'for the real sampler on any raw coefficients, == selected branch under one-hot; == the metric of the exported network (params, ops) on three enumerated whole SuperNets '
+            '(bounded in topology).', '3 C06, 0-bis.7'),
     'C07': ('other', 'BatchNorm fusing / folding algebra of remove_bn_inplace and fuse_bn_inplace for all bias/affine combinations, weight copy, open-mask forward '
             'identity, user objects untouched, mode restoration. Whole-model clauses (PIT / SuperNet / MPS constructors through the real convert()) on enumerated architectures only.', '3 C07, 0-bis.7'),
     'C08': ('proof', 'For ALL real architectural parameters every PIT layer keeps >= 1 feature, >= 1 tap, dilation >= 1; frozen maskers keep full size; exported sizes == '
